@@ -28,6 +28,21 @@ Theorem C18_shorten_cyclic ALIASES k :
   shorten ALIASES = Raise InitialisationError.
 Proof. exact (shorten_cyclic ALIASES k). Qed.
 
+(* the constructor's verdict, completely: InitialisationError exactly for the declarations in which the chain of some alias
+   never reaches a name that is no alias (a chain that leaves the alias names at all leaves within len(ALIASES) look-ups) *)
+Theorem C18_shorten_raises_iff ALIASES :
+  NoDup (akeys ALIASES) ->
+  (shorten ALIASES = Raise InitialisationError <->
+   exists k, In k (akeys (drop_self ALIASES)) /\ forall n, In (follow n (drop_self ALIASES) k) (akeys (drop_self ALIASES))).
+Proof. exact (shorten_raises_iff ALIASES). Qed.
+
+Theorem C18_shorten_acyclic_unbounded ALIASES :
+  NoDup (akeys ALIASES) ->
+  (forall k, In k (akeys (drop_self ALIASES)) -> exists n, ~ In (follow n (drop_self ALIASES) k) (akeys (drop_self ALIASES))) ->
+  exists a, shorten ALIASES = Ret a /\ akeys a = akeys (drop_self ALIASES) /\ chained a = false /\
+            (forall x, aget a x = follow (length ALIASES) ALIASES x).
+Proof. exact (shorten_acyclic_unbounded ALIASES). Qed.
+
 Theorem C18_alias_construct_wf ALIASES PREFERRED am :
   alias_construct ALIASES PREFERRED = Ret am ->
   (chained (amap am) = false /\ NoDup (map (aget (amap am)) (apref am))) /\
@@ -132,6 +147,60 @@ Section C18.
   Proof. exact (resolve_kwargs_mention_no_alias am kw x). Qed.
 End C18.
 
+(* ---------------------------------------------------------------- the canonical twin, from the declaration alone *)
+(* chain_end ALIASES x = follow (length ALIASES) ALIASES x: the declared chain of x followed as far as it goes; canon_op / canon_key /
+   canon_kwargs replace every name by its chain end.  For every acyclic declaration that the constructor accepts, and every history,
+   the aliased object operated through ANY names passes through exactly the states and outcomes of an alias-free object operated
+   through the chain ends; it is constructed like it and read like it *)
+Section C18_twin.
+  Variable pycast : dtype -> pyval -> outcome pyval.
+  Variable arrcast : dtype -> dtype -> pyval -> outcome pyval.
+  Variable infer : list pyval -> dtype.
+  Variable astype_dt : dtype -> list pyval -> dreq -> dtype.
+  Variable itemseq_exn : dtype -> exn.
+
+  Theorem C18_alias_run_canonical_twin ALIASES PREFERRED am :
+    NoDup (akeys ALIASES) ->
+    (forall k, In k (akeys (drop_self ALIASES)) -> exists n, ~ In (follow n (drop_self ALIASES) k) (akeys (drop_self ALIASES))) ->
+    alias_construct ALIASES PREFERRED = Ret am ->
+    forall ops s,
+      gen_alias_run pycast arrcast infer astype_dt itemseq_exn am ops s =
+      run pycast arrcast infer astype_dt itemseq_exn (map (canon_op ALIASES) ops) s.
+  Proof. exact (alias_run_canonical_twin pycast arrcast infer astype_dt itemseq_exn ALIASES PREFERRED am). Qed.
+
+  Theorem C18_alias_trace_canonical_twin ALIASES PREFERRED am :
+    NoDup (akeys ALIASES) ->
+    (forall k, In k (akeys (drop_self ALIASES)) -> exists n, ~ In (follow n (drop_self ALIASES) k) (akeys (drop_self ALIASES))) ->
+    alias_construct ALIASES PREFERRED = Ret am ->
+    forall ops s,
+      alias_trace pycast arrcast infer astype_dt itemseq_exn am ops s =
+      run_trace pycast arrcast infer astype_dt itemseq_exn (map (canon_op ALIASES) ops) s.
+  Proof. exact (alias_trace_canonical_twin pycast arrcast infer astype_dt itemseq_exn ALIASES PREFERRED am). Qed.
+
+  Theorem C18_alias_init_canonical_twin ALIASES PREFERRED am :
+    NoDup (akeys ALIASES) ->
+    (forall k, In k (akeys (drop_self ALIASES)) -> exists n, ~ In (follow n (drop_self ALIASES) k) (akeys (drop_self ALIASES))) ->
+    alias_construct ALIASES PREFERRED = Ret am ->
+    forall k sp st d default NAMES kwargs,
+      gen_alias_init_model pycast arrcast infer astype_dt am k sp st d default NAMES kwargs =
+      init_model pycast arrcast infer astype_dt k sp st d default NAMES (canon_kwargs ALIASES kwargs).
+  Proof. exact (alias_init_canonical_twin pycast arrcast infer astype_dt ALIASES PREFERRED am). Qed.
+End C18_twin.
+
+Theorem C18_alias_read_canonical_twin ALIASES PREFERRED am :
+  NoDup (akeys ALIASES) ->
+  (forall k, In k (akeys (drop_self ALIASES)) -> exists n, ~ In (follow n (drop_self ALIASES) k) (akeys (drop_self ALIASES))) ->
+  alias_construct ALIASES PREFERRED = Ret am ->
+  forall k s, alias_getitem am k s = getitem (canon_key ALIASES k) s.
+Proof. exact (alias_read_canonical_twin ALIASES PREFERRED am). Qed.
+
+Theorem C18_alias_getattr_canonical_twin ALIASES PREFERRED am :
+  NoDup (akeys ALIASES) ->
+  (forall k, In k (akeys (drop_self ALIASES)) -> exists n, ~ In (follow n (drop_self ALIASES) k) (akeys (drop_self ALIASES))) ->
+  alias_construct ALIASES PREFERRED = Ret am ->
+  forall n s, alias_getattr_var am n s = getattr_var (chain_end ALIASES n) s.
+Proof. exact (alias_getattr_canonical_twin ALIASES PREFERRED am). Qed.
+
 (* ---------------------------------------------------------------- to_dataframe(use_aliases=True) *)
 (* never raises on a constructed object (the ambiguity is rejected by __init__), one column per exported variable *)
 Theorem C18_export_total am :
@@ -151,6 +220,16 @@ Theorem C18_export_rename_only am :
     Forall2 (fun c t => t = c \/ In (t, c) (amap am)) (base_columns s) (map fst l).
 Proof. exact (export_rename_only am). Qed.
 
+(* choosing the preferred name: a column whose variable has a declared preferred name - its own name or any of its aliases - is
+   titled with exactly that name *)
+Theorem C18_preferred_title am :
+  WFam am -> NoDup (akeys (amap am)) ->
+  forall cols titles c p,
+  rename_columns am cols = Ret titles ->
+  In p (apref am) -> aget (amap am) p = c -> ~ In c (akeys (amap am)) ->
+  Forall2 (fun c' t => c' = c -> t = p) cols titles.
+Proof. exact (preferred_title am). Qed.
+
 (* kept finding (known_findings.d/C18.json): an alias named like an existing variable *)
 Theorem C18_alias_named_like_variable_refuted :
   exists am s l,
@@ -163,6 +242,8 @@ Proof. exact alias_named_like_variable_refuted. Qed.
 
 Print Assumptions C18_shorten_acyclic.
 Print Assumptions C18_shorten_cyclic.
+Print Assumptions C18_shorten_raises_iff.
+Print Assumptions C18_shorten_acyclic_unbounded.
 Print Assumptions C18_alias_construct_wf.
 Print Assumptions C18_alias_construct_exn.
 Print Assumptions C18_ambiguous_preference_rejected.
@@ -182,9 +263,17 @@ Print Assumptions C18_alias_getattr_eq_root.
 Print Assumptions C18_alias_reads_agree.
 Print Assumptions C18_resolve_kwargs_spec.
 Print Assumptions C18_resolve_kwargs_mention_no_alias.
+Print Assumptions C18_alias_run_canonical_twin.
+Print Assumptions C18_alias_trace_canonical_twin.
+Print Assumptions C18_alias_init_canonical_twin.
+Print Assumptions C18_alias_read_canonical_twin.
+Print Assumptions C18_alias_getattr_canonical_twin.
 Print Assumptions C18_export_total.
 Print Assumptions C18_export_rename_only.
+Print Assumptions C18_preferred_title.
 Print Assumptions C18_alias_named_like_variable_refuted.
 Print Assumptions chain3_hypotheses.
 Print Assumptions cycle_hypothesis.
 Print Assumptions export_renames_only.
+Print Assumptions preferred_title_hypotheses.
+Print Assumptions chain3_leaves.
